@@ -15,18 +15,19 @@ import (
 
 // one route of pkg/server/{query,ingest}/server.go with a VALID request (as deep into the handler as a client gets)
 type c17aRoute struct {
-	srv    string            // "q" query server | "i" ingest server
-	method string            //
-	path   string            // as registered, {name} = route parameter
-	pv     map[string]string // a valid value per route parameter (tokens of c17aTokens allowed)
-	query  string            // valid query string, escaped ("" = none)
-	ctype  string            // content type of the body
-	body   string            // valid body: JSON text or urlencoded form ("" = none)
-	bin    func() []byte     // valid binary body (protobuf, snappy, multipart) instead of body
-	hdr    [][2]string       // further headers of the valid request
-	text   string            // where a query text goes + its language: "json:searchText:logs" | "form:query:promql" | "query:m:otsdb" | "json:queries.0.query:promql" | "body::es"
-	ws     bool              // websocket route: the body is the JSON text frame
-	weight int               // relative share (0 = 1)
+	srv    string                    // "q" query server | "i" ingest server
+	method string                    //
+	path   string                    // as registered, {name} = route parameter
+	pv     map[string]string         // a valid value per route parameter (tokens of c17aTokens allowed)
+	query  string                    // valid query string, escaped ("" = none)
+	ctype  string                    // content type of the body
+	body   string                    // valid body: JSON text or urlencoded form ("" = none)
+	bin    func() []byte             // valid binary body (protobuf, snappy, multipart) instead of body
+	binv   func(r *rand.Rand) []byte // a structural variant of it: fields absent, empty, of another kind
+	hdr    [][2]string               // further headers of the valid request
+	text   string                    // where a query text goes + its language: "json:searchText:logs" | "form:query:promql" | "query:m:otsdb" | "json:queries.0.query:promql" | "body::es"
+	ws     bool                      // websocket route: the body is the JSON text frame
+	weight int                       // relative share (0 = 1)
 }
 
 func (rt *c17aRoute) id() string {
@@ -69,6 +70,14 @@ var c17aLogQLFrags = []string{`{host="h1"}`, `{host="h1",b="x"}`, `{host=~"h.*"}
 var c17aOtsdbFrags = []string{"avg:c17m", "avg:c17m{host=h1}", "sum:c17m{host=h1,job=c17}", "sum:1m-avg:c17m{host=*}", "max:10s-max:cpu{host=h1|h2}", "min:1h-sum-none:cpu{}", "count:cpu{host=\"h1\"}", "avg:rate:c17m{host=h1}",
 	"avg:1mc-avg:c17m{job='c17'}", "quantile:c17m{host=h1}", "cardinality:2d-count:c17m{ host = h1 }", "avg:c17m{host=h1}{job=c17}", "zimsum:c17m{host=h1}", "avg:1m-avg:rate{counter,,1}:c17m{host=literal_or(h1)}"}
 
+// PromQL over the metrics of the bootstrap: scalars, subqueries with and without a step, range functions, functions with parameters
+var c17aPromFrags = []string{"1+1", "5", "2*3 > bool 1", "cpu", "cpu{host=\"h1\"}", "cpu[5m]", "cpu[200y]", "rate(c17m[5m])", "rate(c17m[5m:1m])", "max_over_time(cpu[10m:30s])", "avg_over_time(cpu[5m:500ms])",
+	"quantile_over_time(0.9, cpu[5m])", "quantile_over_time(2, cpu[5m])", "histogram_quantile(0.9, sum(rate(c17m[5m])) by (le))", "histogram_quantile(0.9, cpu)", "quantile(0.9, cpu)", "topk(0, cpu)", "topk(-1, cpu)", "bottomk(2, cpu)",
+	"label_replace(cpu, \"dst\", \"$1\", \"host\", \"(.*)\")", "label_replace(cpu, \"dst\", \"$9\", \"host\", \"(\")", "clamp(cpu, 5, 1)", "round(cpu, 0)", "cpu % 0", "cpu / 0", "(1+1)+cpu", "cpu+(2*3)", "cpu offset 5m", "cpu offset -1y",
+	"cpu @ 1700000000", "sum by (host) (cpu) / on(host) sum by (host) (c17m)", "cpu and on(host) c17m", "cpu or c17m", "cpu unless c17m", "cpu * on(job) group_left(host) c17m", "count by (job) (cpu)", "stddev(cpu)", "group(cpu)",
+	"{__name__=~\"c.*\"}", "{__name__=~\"(\"}", "{host=\"h1\"}", "deriv(cpu[5m])", "predict_linear(cpu[5m], 60)", "changes(cpu[5m])", "resets(cpu[5m])", "irate(cpu[1s])", "timestamp(cpu)", "hour(cpu)", "sgn(cpu)", "ln(cpu)", "-cpu", "cpu ^ 2 ^ 3",
+	"absent(cpu)", "vector(1)", "time()", "scalar(cpu)", "sort(cpu)", "label_join(cpu, \"a\", \",\", \"host\")", "count_values(\"v\", cpu)", "sum(rate(c17m[5m])) by (host) > 0", "avg without (host) (cpu)"}
+
 func c17aESQuery(r *rand.Rand, depth int) interface{} {
 	leafs := []func() interface{}{
 		func() interface{} { return map[string]interface{}{"match_all": map[string]interface{}{}} },
@@ -103,7 +112,9 @@ func c17aESQuery(r *rand.Rand, depth int) interface{} {
 		func() interface{} {
 			return map[string]interface{}{"multi_match": map[string]interface{}{"query": "x", "fields": []interface{}{"b", "c"}, "type": "phrase"}}
 		},
-		func() interface{} { return map[string]interface{}{"ids": map[string]interface{}{"values": []interface{}{"1"}}} },
+		func() interface{} {
+			return map[string]interface{}{"ids": map[string]interface{}{"values": []interface{}{"1"}}}
+		},
 	}
 	if depth <= 0 || r.Intn(3) > 0 {
 		return leafs[r.Intn(len(leafs))]()
@@ -191,6 +202,10 @@ func c17aText(r *rand.Rand, lang string) string {
 	case "sql":
 		text = sqlFrags[r.Intn(len(sqlFrags))]
 	case "promql":
+		if r.Intn(2) == 0 {
+			text = c17aPromFrags[r.Intn(len(c17aPromFrags))]
+			break
+		}
 		text = strings.NewReplacer("m{", "c17m{", "(m)", "(c17m)", "m[", "c17m[").Replace(promFrags[r.Intn(len(promFrags))])
 		if r.Intn(3) == 0 {
 			text = text + []string{" + ", " / ", " and ", " or ", " unless ", " > ", " % ", " ^ "}[r.Intn(8)] + promFrags[r.Intn(len(promFrags))]
@@ -553,13 +568,17 @@ func c17aGenLine(r *rand.Rand, rt *c17aRoute) string {
 	if rt.bin != nil {
 		bin = rt.bin()
 	}
+	var class []string
+	if rt.binv != nil && r.Intn(2) == 1 {
+		bin = rt.binv(r)
+		class = append(class, "proto-variant")
+	}
 	qs := c17aParseQS(rt.query)
 	pv := map[string]string{}
 	for k, v := range rt.pv {
 		pv[k] = v
 	}
 	hdr := append([][2]string{}, rt.hdr...)
-	var class []string
 	lenMismatch := 0
 
 	// a query text of the route's language
